@@ -133,10 +133,12 @@ Inductive msg :=
 | MRequest (p : proto) (t rid : th) (pt : inv) (d : did) (dc : option doc)
     (* t = the message's thread id (~thread.thid, else @id), rid = its @id: equal in every request an agent of
        this code base sends *)
-| MResponse (p : proto) (t : th) (d : did) (dc : option doc) (sig : key)
+| MResponse (p : proto) (t dt : th) (d : did) (dc : option doc) (sig : key)
+    (* t = the message's thread id as ThreadID() reads it (exactly "~thread"."thid", else @id); dt = the thread id
+       the handlers decode from ~thread (member names matched case-insensitively): equal in every honest message *)
     (* sig: the key the connection~sig of a legacy response verifies under (0 = none / not verifying);
        ignored by DID Exchange *)
-| MComplete (p : proto) (t : th)                 (* DID Exchange complete / legacy ack *)
+| MComplete (p : proto) (t dt : th)              (* DID Exchange complete / legacy ack; t, dt as above *)
 | MPing (fk tk : key)                            (* an application message; envelope sender / recipient key *)
 | MPingV2 (fd td : did)                          (* the same under a DIDComm v2 envelope: the envelope key ids name
                                                     the sender's and the recipient's DID (getDIDGivenKey) *)
@@ -258,15 +260,19 @@ Definition step (v : variant) (a : agent) (i : input) : agent * list out :=
                       | Some ik =>
                           (set_conn a3 c (Conn Their t SResponded (d_id my) d
                                             (match p with DX => 0 | LC => hd 0 (d_keys my) end)),
-                           [OSend (d_ep dc) (d_keys dc) (MResponse p t (d_id my) (Some my) ik)])
+                           [OSend (d_ep dc) (d_keys dc) (MResponse p t t (d_id my) (Some my) ik)])
                       end
                   end
               end
           end
       end
-  | IRecv (MResponse p t d dco sig) _ _ =>
-      (* invitee.  nextState: the thread (my namespace) must be in state requested *)
-      if negb (can (cur_state a My t) SResponded) then (a, [OReject]) else
+  | IRecv (MResponse p t0 dt d dco sig) _ _ =>
+      (* invitee.  nextState on the message's thread id: the thread (my namespace) must be in state requested *)
+      if negb (can (cur_state a My t0) SResponded) then (a, [OReject]) else
+      (* the record is fetched, and the response handled, under the DECODED thread id.  As found the two were never
+         compared; fixed: a message whose decoded thread id differs from its thread id is refused *)
+      if (match v with Fixed => negb (N.eqb dt t0) | AsIs => false end) then (a, [OReject]) else
+      let t := dt in
       match tget (a_thmap a) My t with
       | None => (a, [OReject])
       | Some c =>
@@ -288,18 +294,20 @@ Definition step (v : variant) (a : agent) (i : input) : agent * list out :=
                       match d_keys dc with
                       | [] => (a2, [])
                       | _ =>
-                          let a3 := set_conn a2 c (Conn My t SCompleted (c_my r) d (c_rk r)) in
+                          let a3 := set_conn a2 c (Conn My (c_th r) SCompleted (c_my r) d (c_rk r)) in
                           (* the key index is written before the action: if that fails the complete is not sent *)
                           let '(a4, ok) := save_by_resolving v a3 d (fallback (c_rk r)) in
-                          (a4, if ok then [OSend (d_ep dc) (d_keys dc) (MComplete p t)] else [])
+                          (a4, if ok then [OSend (d_ep dc) (d_keys dc) (MComplete p t t)] else [])
                       end
                   end
               end
           end
       end
-  | IRecv (MComplete p t) _ _ =>
-      (* inviter: fetchConnectionRecord first, then nextState *)
-      if negb (can (cur_state a Their t) SCompleted) then (a, [OReject]) else
+  | IRecv (MComplete p t0 dt) _ _ =>
+      (* inviter: nextState on the message's thread id, the record under the decoded one *)
+      if negb (can (cur_state a Their t0) SCompleted) then (a, [OReject]) else
+      if (match v with Fixed => negb (N.eqb dt t0) | AsIs => false end) then (a, [OReject]) else
+      let t := dt in
       match tget (a_thmap a) Their t with
       | None => (a, [OReject])
       | Some c =>
@@ -362,8 +370,8 @@ Definition touches (n : ns) (t : th) (i : input) : bool :=
   match i with
   | IAcceptInv _ _ _ _ _ t' _ => ns_eqb n My && N.eqb t t'
   | IRecv (MRequest _ t' _ _ _ _) _ _ => ns_eqb n Their && N.eqb t t'
-  | IRecv (MResponse _ t' _ _ _) _ _ => ns_eqb n My && N.eqb t t'
-  | IRecv (MComplete _ t') _ _ => ns_eqb n Their && N.eqb t t'
+  | IRecv (MResponse _ t' _ _ _ _) _ _ => ns_eqb n My && N.eqb t t'
+  | IRecv (MComplete _ t' _) _ _ => ns_eqb n Their && N.eqb t t'
   | _ => false
   end.
 
@@ -373,9 +381,14 @@ Definition touches (n : ns) (t : th) (i : input) : bool :=
 Definition foreign (n : ns) (t : th) (c : cid) (i : input) : Prop :=
   touches n t i = false /\ input_cid i <> Some c.
 
-(* the request's two ids agree (true of every request the code sends; the repaired code refuses the others) *)
+(* the message's two thread ids agree (true of every message the code sends; the repaired code refuses the others) *)
 Definition ids_agree (i : input) : Prop :=
-  match i with IRecv (MRequest _ t rid _ _ _) _ _ => rid = t | _ => True end.
+  match i with
+  | IRecv (MRequest _ t rid _ _ _) _ _ => rid = t
+  | IRecv (MResponse _ t dt _ _ _) _ _ => dt = t
+  | IRecv (MComplete _ t dt) _ _ => dt = t
+  | _ => True
+  end.
 
 (* the input is not a rotation of DID d signed with a key of d's own document: whoever does not hold d's keys
    (every third party) can only send such inputs *)
